@@ -602,3 +602,84 @@ fn c04_ligature_matches() {
     std::mem::forget(lig);
     std::mem::forget(glyphs);
 }
+
+// ---------------------------------------------------------------------------
+// FeatureVariations: condition sets against a variation tuple
+// ---------------------------------------------------------------------------
+
+use allsorts::layout::{FeatureTableSubstitution, FeatureVariationsOwned};
+use allsorts::tables::variable_fonts::fvar::FvarTable;
+use allsorts::tables::F2Dot14;
+
+fn two_axis_fvar() -> [u8; 56] {
+    let mut buf = [0u8; 56];
+    put16(&mut buf, 0, 1);
+    put16(&mut buf, 4, 16);
+    put16(&mut buf, 6, 2);
+    put16(&mut buf, 8, 2);
+    put16(&mut buf, 10, 20);
+    let mut k = 0;
+    while k < 2 {
+        let at = 16 + 20 * k;
+        put32(&mut buf, at, 0x7767_6874);
+        put32(&mut buf, at + 4, 100u32 << 16);
+        put32(&mut buf, at + 8, 400u32 << 16);
+        put32(&mut buf, at + 12, 900u32 << 16);
+        put16(&mut buf, at + 18, 256 + k as u16);
+        k += 1;
+    }
+    buf
+}
+
+/// The first feature variation record whose condition set matches wins; a condition set is the
+/// conjunction of its conditions; an axis-range condition holds iff min <= value <= max (both
+/// ends inclusive) for an axis the tuple has; unknown condition formats never match; a record
+/// without a condition set matches everything.
+// @bound FeatureVariations with 2 records: record 0 with a set of 2 conditions (format 1 or unknown, axis index 0..2, every 2.14 min/max), record 1 universal; tuple of 2 axes with every 2.14 value
+#[kani::proof]
+#[kani::unwind(6)]
+fn c04_feature_variation_conditions() {
+    let mut buf: [u8; 56] = kani::any();
+    put16(&mut buf, 0, 1);
+    put16(&mut buf, 2, 0);
+    put32(&mut buf, 4, 2);
+    put32(&mut buf, 8, 24);
+    put32(&mut buf, 12, 0); // record 0: no substitution table
+    put32(&mut buf, 16, 0); // record 1: universal
+    put32(&mut buf, 20, 50);
+    put16(&mut buf, 24, 2);
+    put32(&mut buf, 26, 10);
+    put32(&mut buf, 30, 18);
+    put16(&mut buf, 50, 1);
+    put16(&mut buf, 52, 0);
+    put16(&mut buf, 54, 0);
+    let v: [i16; 2] = [kani::any(), kani::any()];
+    let mut all = true;
+    let mut k = 0;
+    while k < 2 {
+        let at = 34 + 8 * k;
+        let format = be16(&buf, at);
+        kani::assume(format == 1 || format == 2);
+        let axis = be16(&buf, at + 2);
+        kani::assume(axis <= 2);
+        let min = be16(&buf, at + 4) as i16;
+        let max = be16(&buf, at + 6) as i16;
+        let holds = format == 1 && axis < 2 && min <= v[axis as usize % 2] && v[axis as usize % 2] <= max;
+        all = all && holds;
+        k += 1;
+    }
+    let fv = ReadScope::new(&buf).read::<FeatureVariationsOwned>().unwrap();
+    let fbuf = two_axis_fvar();
+    let fvar = ReadScope::new(&fbuf).read::<FvarTable<'_>>().unwrap();
+    let tuple = fvar.owned_tuple(&[F2Dot14::from_raw(v[0]), F2Dot14::from_raw(v[1])]).unwrap();
+    let got = fv.matches(tuple.as_tuple()).unwrap();
+    match got {
+        Some(FeatureTableSubstitution::NoSubstitution) => assert!(all, "record 0 chosen although a condition fails"),
+        Some(FeatureTableSubstitution::Table(_)) => assert!(!all, "record 0 skipped although every condition holds"),
+        None => assert!(false, "the universal record always matches"),
+    }
+    kani::cover!(all && v[0] == be16(&buf, 40) as i16 && be16(&buf, 36) == 0, "value on the upper end of a range");
+    kani::cover!(!all);
+    std::mem::forget(fv);
+    std::mem::forget(tuple);
+}
